@@ -1,5 +1,6 @@
 import TsV.Lemmas.C06_Multi_Scoped
 import TsV.Props.C06
+import TsV.Lemmas.MinByKey
 /-!
 # The collector and `reconcile` for several crates, up to arrival order and hash order
 
@@ -7,10 +8,9 @@ import TsV.Props.C06
   crate's arrivals;
 * `DataEq` / `MapEq`: two per-crate results / two collected maps that differ only by the order of the item
   lists and of the hash sets;  `collect_mapEq`: permuting the arrivals (`PartRel`) gives `MapEq` maps;
-* `resolve_congr_mem`: `resolve_renamed` does not depend on the order of the import set when the imports are
-  unambiguous (`ImportsOK`);
-* `reconcile_mapEq`: on `MapEq` maps with unique names and unambiguous imports `reconcile` yields equal item
-  lists.
+* `resolve_congr_mem`: `resolve_renamed` does not depend on the order of the import set (it takes the renaming
+  crate with the smallest name: `Lemmas/MinByKey.lean`);
+* `reconcile_mapEq`: on `MapEq` maps with unique names `reconcile` yields equal item lists.
 -/
 namespace TsV.C06M
 open TsV TsV.Pipeline TsV.Collect
@@ -334,55 +334,16 @@ theorem partRel_of_fileEq (a a' : List ParsedData) (h : Rel₂ FileEq a a') (hu 
 
 /-! ### `resolve_renamed` and the hash order of `import_types` -/
 
-/-- the imports are unambiguous for the rename table `r`: two imports of the same type name from crates that
-both rename it agree on the new name (in particular: no type name is imported from two crates; or: at most one
-of the crates a name is imported from renames it) -/
-def ImportsOK (r : Renames) (imps : List ImportedType) : Bool :=
-  imps.all fun i => imps.all fun j =>
-    i.typeName != j.typeName ||
-      (match renameOf r i.typeName i.baseCrate, renameOf r i.typeName j.baseCrate with
-       | some n, some m => n == m
-       | _, _ => true)
-
-/-- the simple sufficient condition: no type name is imported from two crates -/
-def NoDoubleImport (imps : List ImportedType) : Bool :=
-  imps.all fun i => imps.all fun j => i.typeName != j.typeName || i.baseCrate == j.baseCrate
-
-theorem importsOK_of_noDoubleImport (r : Renames) (imps : List ImportedType) (h : NoDoubleImport imps = true) :
-    ImportsOK r imps = true := by
-  unfold ImportsOK
-  rw [List.all_eq_true]; intro i hi
-  rw [List.all_eq_true]; intro j hj
-  have h1 := List.all_eq_true.1 (List.all_eq_true.1 h i hi) j hj
-  simp only [Bool.or_eq_true] at h1 ⊢
-  rcases h1 with h1 | h1
-  · exact Or.inl h1
-  · right
-    have : i.baseCrate = j.baseCrate := eq_of_beq h1
-    rw [this]
-    cases renameOf r i.typeName j.baseCrate <;> simp
-
-/-- **hash order of `import_types` in `resolve_renamed`**: under `ImportsOK` the result only depends on the
-import *set* -/
+/-- **hash order of `import_types` in `resolve_renamed`**: the result only depends on the import *set*
+(`min_by_key` on the crate name; no hypothesis on the imports since the `fix:` commit "resolve a type name imported
+from several crates the same way in every run") -/
 theorem resolve_congr_mem (c : Str) (r : Renames) (imps imps' : List ImportedType) (id : Str)
-    (hok : ImportsOK r imps = true) (hi : ∀ i, i ∈ imps ↔ i ∈ imps') :
-    resolveRenamed c r imps id = resolveRenamed c r imps' id := by
-  unfold resolveRenamed
-  have : (imps.filter (·.typeName == id)).findSome? (fun i => renameOf r id i.baseCrate) =
-      (imps'.filter (·.typeName == id)).findSome? (fun i => renameOf r id i.baseCrate) := by
-    apply findSome?_congr_mem
-    · intro x; simp only [List.mem_filter, hi x]
-    · intro x hx y hy n m hfx hfy
-      simp only [List.mem_filter, beq_iff_eq] at hx hy
-      have h1 := List.all_eq_true.1 (List.all_eq_true.1 hok x hx.1) y hy.1
-      rw [hx.2, hy.2, hfx, hfy] at h1
-      simpa using h1
-  rw [this]
+    (hi : ∀ i, i ∈ imps ↔ i ∈ imps') : resolveRenamed c r imps id = resolveRenamed c r imps' id :=
+  MinByKey.resolve_congr_mem c r imps imps' id hi
 
 theorem resolve_perm (c : Str) (r : Renames) (imps imps' : List ImportedType) (id : Str)
-    (hok : ImportsOK r imps = true) (hp : imps.Perm imps') :
-    resolveRenamed c r imps id = resolveRenamed c r imps' id :=
-  resolve_congr_mem c r imps imps' id hok fun _ => hp.mem_iff
+    (hp : imps.Perm imps') : resolveRenamed c r imps id = resolveRenamed c r imps' id :=
+  MinByKey.resolve_perm c r imps imps' id hp
 
 mutual
   theorem checkType_congr {c c' : Str} {r r' : Renames} {imps imps' : List ImportedType}
@@ -411,10 +372,6 @@ structure MapWF (m : List (Str × ParsedData)) : Prop where
   types : ∀ p ∈ m, (p.2.structs.map (·.id.original) ++ p.2.enums.map (·.id.original) ++
             p.2.aliases.map (·.id.original)).Nodup
   consts : ∀ p ∈ m, (p.2.consts.map (·.id.original)).Nodup
-
-/-- every crate's import set is unambiguous for the rename table of the whole run -/
-def ImportsUnambiguous (m : List (Str × ParsedData)) : Bool :=
-  m.all fun p => ImportsOK (collectSerdeRenames m) p.2.importTypes
 
 theorem collectSerdeRenames_eq (m : List (Str × ParsedData)) :
     collectSerdeRenames m = m.flatMap fun p => C06.renamesOf p.1 p.2.structs p.2.enums p.2.aliases := rfl
@@ -478,12 +435,12 @@ structure RecEq (p q : Str × ParsedData) : Prop where
   errors : p.2.errors.Perm q.2.errors
 
 theorem reconcileOne_recEq (r r' : Renames) (c : Str) (d d' : ParsedData) (he : DataEq d d')
-    (hr : RenEquiv r r') (hok : ImportsOK r d.importTypes = true)
+    (hr : RenEquiv r r')
     (hty : (d.structs.map (·.id.original) ++ d.enums.map (·.id.original) ++ d.aliases.map (·.id.original)).Nodup)
     (hco : (d.consts.map (·.id.original)).Nodup) :
     RecEq (c, reconcileOne r c d) (c, reconcileOne r' c d') := by
   have hres : ∀ id, resolveRenamed c r d.importTypes id = resolveRenamed c r' d'.importTypes id := fun id =>
-    (resolve_congr_mem c r _ _ id hok he.imports).trans (resolve_equiv r r' hr c _ id)
+    (resolve_congr_mem c r _ _ id he.imports).trans (resolve_equiv r r' hr c _ id)
   have hct : checkType c r d.importTypes = checkType c r' d'.importTypes := funext (checkType_congr hres)
   have hcf : checkField c r d.importTypes = checkField c r' d'.importTypes := by
     funext f; simp only [checkField, hct]
@@ -512,16 +469,16 @@ theorem reconcileOne_recEq (r r' : Renames) (c : Str) (d d' : ParsedData) (he : 
 theorem reconcile_eq (m : List (Str × ParsedData)) :
     reconcile m = m.map fun p => (p.1, reconcileOne (collectSerdeRenames m) p.1 p.2) := rfl
 
-/-- **`reconcile` on equivalent maps**: with distinct names per crate and unambiguous imports, the reconciled
-crates agree on everything that is read afterwards -/
-theorem reconcile_mapEq {m m' : List (Str × ParsedData)} (h : MapEq m m') (wf : MapWF m)
-    (hu : ImportsUnambiguous m = true) : Rel₂ RecEq (reconcile m) (reconcile m') := by
+/-- **`reconcile` on equivalent maps**: with distinct names per crate the reconciled crates agree on everything
+that is read afterwards (whatever is imported from wherever) -/
+theorem reconcile_mapEq {m m' : List (Str × ParsedData)} (h : MapEq m m') (wf : MapWF m) :
+    Rel₂ RecEq (reconcile m) (reconcile m') := by
   rw [reconcile_eq, reconcile_eq]
   apply Rel₂.map
   apply Rel₂.imp h
   intro p q hp _ hpq
   have := reconcileOne_recEq (collectSerdeRenames m) (collectSerdeRenames m') p.1 p.2 q.2 hpq.2
-    (renEquiv_of_mapEq h wf) (List.all_eq_true.1 hu p hp) (wf.types p hp) (wf.consts p hp)
+    (renEquiv_of_mapEq h wf) (wf.types p hp) (wf.consts p hp)
   rw [← hpq.1]
   exact this
 
